@@ -643,10 +643,17 @@ type gen struct{ r interface{ Intn(int) int; Float64() float64; NormFloat64() fl
 var specialRunes = []rune{'"', '\\', '{', '}', ';', '=', '>', '@', ' ', ':', ',', '[', ']', '\'', '/', '+', '\n', '\t', '\r', '<', '&'}
 var otherRunes = []rune{'a', 'b', 'Z', '0', '9', '_', '-', '.', 'é', 'ß', 'Ω', '日', '本', '😀', '𝄞', '\u2028', '\u2029', '\u00a0', '\ufeff', '\u0001', '\u007f', '\u0000', '\u0008', '\u000c', '\u001f', '\ufffd', '\uffff'}
 
+// text that LOOKS like a JSON escape (the six characters backslash u 0 0 3 c, ...): a string like any other
+var escapeLookalikes = []string{`\u003c`, `\u003e`, `\u0026`, `\u0022`, `\u005c`, `\u2028`, `\n`, `\"`, `\\u003c`, `&lt;`, `\/`}
+
 func (g gen) str(maxLen int) string {
 	n := g.r.Intn(maxLen + 1)
 	var b strings.Builder
 	for i := 0; i < n; i++ {
+		if g.r.Intn(14) == 0 {
+			b.WriteString(escapeLookalikes[g.r.Intn(len(escapeLookalikes))])
+			continue
+		}
 		switch g.r.Intn(10) {
 		case 0, 1, 2, 3:
 			b.WriteRune(specialRunes[g.r.Intn(len(specialRunes))])
@@ -668,6 +675,9 @@ func (g gen) key() string {
 		var k string
 		if g.r.Intn(6) == 0 {
 			k = g.str(6)
+		} else if g.r.Intn(10) == 0 {
+			// an annotation may bear the name of a field of the record: it stays an annotation
+			k = []string{"id", "sequence", "qualities", "count", "taxid"}[g.r.Intn(5)]
 		} else {
 			n := 1 + g.r.Intn(8)
 			b := make([]byte, n)
@@ -677,7 +687,7 @@ func (g gen) key() string {
 			k = string(b)
 		}
 		switch k {
-		case "", "id", "sequence", "qualities", "definition":
+		case "", "definition":
 			continue
 		}
 		return k
@@ -844,8 +854,12 @@ func (g gen) record(format string, plainID bool, maxQ int, classes map[string]in
 	}
 	for i, n := 0, g.r.Intn(5); i < n; i++ {
 		v, shape := g.value(0)
-		s.SetAttribute(g.key(), v)
+		k := g.key()
+		s.Annotations()[k] = v // not SetAttribute: it takes the keys id / sequence / qualities for the fields
 		classes["shape/"+shape]++
+		if k == "id" || k == "sequence" || k == "qualities" {
+			classes["key-named-as-a-field"]++
+		}
 	}
 	if len(s.Annotations()) == 0 {
 		classes["no-annotation"]++
